@@ -74,7 +74,8 @@ def generate(rng, index: int, tier: str) -> dict:
         t_end = T1 + 4.0
     knobs["fates"] = fates
     avoid = {u[1] for u in ups}
-    msgs = sendq.distinct_messages(rng, gen, n_msgs)
+    all_msgs = sendq.distinct_messages(rng, gen, n_msgs + 3)
+    msgs, spare = all_msgs[:n_msgs], all_msgs[n_msgs:]
     anchors = [T1] + ([ups[0][1], ups[1][0]] if outage else [])
     down_counts = {}
     sends = []
@@ -111,6 +112,13 @@ def generate(rng, index: int, tier: str) -> dict:
         burst_t = at
         sends.append({"at": at, "op": "user.send", "msg": d, "policy": pol, "yields": rng.choice([0, 0, 0, 1, 2, 5])})
     tl += sends
+    if rng.random() < 0.25 and not big:
+        # the connection that flushes the buffered messages is under flow control from its first byte,
+        # and further sends arrive while that flush is suspended
+        dur = rng.choice([0.125, 0.5])
+        tl.append({"at": t_open, "op": "net.stall_next", "duration": dur})
+        for d in spare[: rng.choice([1, 2, 3])]:
+            tl.append({"at": T1 + G.dyadic(rng, 0.0, dur), "op": "user.send", "msg": d, "policy": rng.choice(["idem", "nonidem"]), "yields": rng.choice([0, 1, 3])})
     if rng.random() < 0.2 and not big:
         ts = G.pick_time(rng, T1, t_end - 1.0, anchors=anchors)
         tl.append({"at": ts, "op": "net.stall", "on": True})
@@ -127,6 +135,8 @@ def judge(w: World, sc: dict, *, socket_level: bool = True):
     stall_total = 0.0
     t_on = None
     for st in sc["timeline"]:
+        if st["op"] == "net.stall_next":
+            stall_total += st["duration"]
         if st["op"] == "net.stall":
             if st.get("on", True):
                 t_on = st["at"]
@@ -182,7 +192,8 @@ def judge(w: World, sc: dict, *, socket_level: bool = True):
             V.append(viol("C01.duplicate", {"sub": s["id"], "msg": s["desc"], "times": [f["t"] for f in s["tx"]]}, n=min(n, 3)))
             continue
         deadline = ta + s["lifetime"]
-        if tstar is None or tstar >= deadline - 0.1:
+        # flow control (a stalled transport) may legitimately hold a message back for the stall's length
+        if tstar is None or tstar + min(stall_total, 1e6) >= deadline - 0.1:
             if n == 1:
                 order.append((s["tx"][0]["seq"], s["seq_call"], s["id"]))
             continue  # expiry territory: judged by C02/C16
